@@ -539,6 +539,35 @@ func init() {
 						cmp("legacy-length-prefixed", fresh, err, e)
 					})
 				}
+				if isProto && !isParams && t.legacy {
+					// the fallback branch of the codec: bytes in the current encoding read at a height before the codec upgrade
+					// (legacy decoding first, current encoding as fallback - what a young chain does with a transaction from
+					// the default client path). The opposite direction is not offered by the codec and not demanded.
+					for _, x := range []struct {
+						path     string
+						enc, dec int64
+					}{{"proto-bytes-read-before-upgrade", c38ProtoHeight, c38LegacyHeight}} {
+						x := x
+						safe(x.path+"-binary", func() {
+							bz, e := cdc.MarshalBinaryBare(orig.Interface(), x.enc)
+							fresh := reflect.New(t.typ)
+							var err error
+							if e == nil {
+								err = cdc.UnmarshalBinaryBare(bz, fresh.Interface(), x.dec)
+							}
+							cmp(x.path+"-binary", fresh, err, e)
+						})
+						safe(x.path+"-length-prefixed", func() {
+							bz, e := cdc.MarshalBinaryLengthPrefixed(orig.Interface(), x.enc)
+							fresh := reflect.New(t.typ)
+							var err error
+							if e == nil {
+								err = cdc.UnmarshalBinaryLengthPrefixed(bz, fresh.Interface(), x.dec)
+							}
+							cmp(x.path+"-length-prefixed", fresh, err, e)
+						})
+					}
+				}
 				if t.name != "pocketcore.Evidence" {
 					safe("json", func() {
 						bz, e := cdc.MarshalJSON(orig.Interface())
